@@ -52,19 +52,23 @@ def rep_map(kind, x, y=None):
     if kind == "key+value":
         return MapVal(((x, y),))
     if kind == "value-elems":
-        return MapVal(((Adt("opaque", "S"), SeqVal((x,))),))
+        # a bucket with the cell under test and a second, far-away cell of the same string
+        return MapVal(((Adt("opaque", "S"), SeqVal((x, FAR))),))
     raise AssertionError(kind)
+
+
+FAR = 0  # a cell in front of every edited range: never shifted, never dropped
 
 
 def read_result(kind, m):
     """Normalise the resulting map to None (dropped) or the new address(es)."""
     m = deref(m)
     if isinstance(m, SeqVal) and not m.items:
-        return None  # an empty collection
+        return "far-cell-lost" if kind == "value-elems" else None  # an empty collection
     if not isinstance(m, MapVal):
         raise Unknown("result is not a map: %r" % (m,))
     if not m.pairs:
-        return None
+        return "far-cell-lost" if kind == "value-elems" else None
     if len(m.pairs) != 1:
         raise Unknown("element-wise transform changed the number of entries")
     k, v = m.pairs[0]
@@ -76,9 +80,15 @@ def read_result(kind, m):
     if kind == "value-elems":
         if not isinstance(v, SeqVal):
             raise Unknown("bucket is not a sequence")
-        if not v.items:
+        items = [deref(i) for i in v.items]
+        if FAR not in items:
+            return "far-cell-lost"
+        items.remove(FAR)
+        if not items:
             return None
-        return deref(v.items[0])
+        if len(items) != 1:
+            return "bucket-grew"
+        return items[0]
 
 
 def spec_shift_ge(x, a):          # text keys, pointer sources, c-string cells
